@@ -198,6 +198,7 @@ type OlvmTx struct {
 	Code     int64  `json:"code"`
 	Fee      int64  `json:"fee"`
 	Payer    string `json:"payer"`
+	Nested   bool   `json:"nested"` // a call of program "nest"
 }
 
 type OlvmState struct {
@@ -278,6 +279,10 @@ func OlvmEvents(t int, sc *Scenario, tr *Transcript) []OlvmEvent {
 				}
 				if strings.HasPrefix(d, "arg:") {
 					x.Arg = d[4:]
+				}
+				if strings.HasPrefix(d, "nest:") {
+					x.Arg = strings.Split(d[5:], "|")[0]
+					x.Nested = true
 				}
 				if o := tx.Deliver.Olvm; o != nil {
 					x.Status = o.Status
